@@ -154,13 +154,25 @@ struct Found {
     self_ty: Option<syn::Type>,
     trait_: Option<syn::Path>,
     span_lines: (usize, usize),
+    assoc: Vec<syn::ImplItem>,
 }
 
 fn type_last_ident(t: &syn::Type) -> Option<String> {
-    if let syn::Type::Path(p) = t {
-        p.path.segments.last().map(|s| s.ident.to_string())
+    match t {
+        syn::Type::Path(p) => p.path.segments.last().map(|s| s.ident.to_string()),
+        syn::Type::Reference(r) => type_last_ident(&r.elem),
+        _ => None,
+    }
+}
+/// `Type` matches by last identifier (references stripped); `&Type` matches only a reference self type
+fn self_ty_matches(t: &syn::Type, want: &str) -> bool {
+    let want = want.trim();
+    if let Some(rest) = want.strip_prefix('&') {
+        matches!(t, syn::Type::Reference(_)) && type_last_ident(t).as_deref() == Some(rest.trim())
+    } else if want.starts_with('=') {
+        !matches!(t, syn::Type::Reference(_)) && type_last_ident(t).as_deref() == Some(want[1..].trim())
     } else {
-        None
+        type_last_ident(t).as_deref() == Some(want)
     }
 }
 
@@ -178,11 +190,12 @@ fn find_fn_in_items(items: &[syn::Item], ty: Option<&str>, name: &str, tr: Optio
                     self_ty: None,
                     trait_: None,
                     span_lines: (f.sig.fn_token.span.start().line, sp.close().end().line),
+                    assoc: vec![],
                 });
             }
             syn::Item::Impl(im) => {
                 if let Some(tyname) = ty {
-                    if type_last_ident(&im.self_ty).as_deref() != Some(tyname) {
+                    if !self_ty_matches(&im.self_ty, tyname) {
                         continue;
                     }
                     let this_tr = im.trait_.as_ref().map(|(_, p, _)| p.segments.last().unwrap().ident.to_string());
@@ -203,6 +216,7 @@ fn find_fn_in_items(items: &[syn::Item], ty: Option<&str>, name: &str, tr: Optio
                                     self_ty: Some((*im.self_ty).clone()),
                                     trait_: im.trait_.as_ref().map(|(_, p, _)| p.clone()),
                                     span_lines: (m.sig.fn_token.span.start().line, m.block.brace_token.span.close().end().line),
+                                    assoc: im.items.iter().filter(|x| matches!(x, syn::ImplItem::Type(_) | syn::ImplItem::Const(_))).cloned().collect(),
                                 });
                             }
                         }
@@ -1100,6 +1114,11 @@ fn emit_fn(ctx: &mut Ctx, d: &FnDir, out: &mut String) {
         let _ = writeln!(out, "//vx-begin {} {}", tag, qual);
         if !impl_header.is_empty() {
             let _ = writeln!(out, "{} {{", impl_header.trim());
+            if f.trait_.is_some() && !d.opts.contains_key("inherent") && tag == "fn" {
+                for a in &f.assoc {
+                    let _ = writeln!(out, "    {}", pretty(a.to_token_stream(), 1).trim());
+                }
+            }
         }
         if let Some(a) = d.opts.get("attr") {
             let _ = writeln!(out, "    {}", a);
@@ -1121,7 +1140,8 @@ fn emit_fn(ctx: &mut Ctx, d: &FnDir, out: &mut String) {
         let _ = writeln!(out, "//vx-end {} {}", tag, qual);
     };
     emit_one(head, &d.spec, "fn", out);
-    if ctx.vacuity && !d.opts.contains_key("novac") {
+    let trait_method = f.trait_.is_some() && !d.opts.contains_key("inherent") && !free;
+    if ctx.vacuity && !d.opts.contains_key("novac") && !trait_method {
         let vs = vacuous_spec(&d.spec);
         emit_one(head_vac, &vs, "vac", out);
     }
@@ -1150,7 +1170,7 @@ fn emit_fn(ctx: &mut Ctx, d: &FnDir, out: &mut String) {
         nreq,
         nens,
         ninv,
-        d.opts.contains_key("novac"),
+        d.opts.contains_key("novac") || trait_method,
     );
     ctx.report.push(rep);
 }
